@@ -56,3 +56,170 @@ def _conf(c):
     c.ensures("not in_re(result, '.*[/\\\\\\\\].*')", "contains-no-path-separator")
     c.ensures("result != '..' and result != '.' and strlen(result) > 0", "is-not-a-dot-component")
     c.ensures("not in_re(result, '[^0-9A-Za-z_].*')", "begins-with-a-word-character")
+
+
+# ================================================================================================== uniqueness (C06, C10)
+# sanitize_names_general gives the n sibling elements of one directory pairwise different names - whatever the stored names
+# are.  The argument needs NO string theory: a name is either a key of `candidate_names` (keys of one dict differ) or a counted
+# name that was tested against those keys and against every counted name handed out before.  So the two string functions
+# are replaced by abstract PURE functions of their arguments (their safety is proved above; here only equality matters).
+# Proved per directory size n (dictionaries keyed by symbolic strings: every insertion splits the path on "equals an earlier
+# key"); the size is the only bound, names are unconstrained.
+@contract(S + "Image.make_export_name#pure", abstract=True, assumed=True,
+          note="make_export_name is a function of (name, is_file): it reads only module-level compiled patterns")
+def _men_pure(c):
+    c.param("name", "str")
+    c.param("is_file", "bool")
+    c.returns("str")
+    c.ensures("result == uf_str('export_name', name, is_file)")
+    c.modifies()
+
+
+@contract(S + "Image.make_safe_name#pure", abstract=True, assumed=True,
+          note="make_safe_name is a function of its name argument")
+def _msn_pure(c):
+    c.param("name", "str")
+    c.param("is_file", "bool")
+    c.returns("str")
+    c.ensures("result == uf_str('safe_name', name)")
+    c.modifies()
+
+
+@contract(S + "Image._add_count_to_name#pure", abstract=True, assumed=True,
+          note="_add_count_to_name is a function of (name, count)")
+def _act_pure(c):
+    c.param("name", "str")
+    c.param("count", "int")
+    c.returns("str")
+    c.ensures("result == uf_str('counted_name', name, count)")
+    # different counts give different names for one base name (the decimal counter can be read back): used for termination of
+    # the "find a free counted name" loops only
+    c.ensures("count == uf_int('count_read_back', name, result)")
+    c.modifies()
+
+
+def _mk_unique(routine, attr, fn, n):
+    ELEM = ("obj", "smpl_extract.base:Element", {"name": "str", "type_id": "int"})
+
+    @contract(S + f"Image.{routine}[n={n}]", source_key=S + f"Image.{routine}", props=["C06", "C10"], proof_only=True)
+    def _u(c):
+        c.self_obj(("self", "smpl_extract.structural:Image", {}))
+        c.param("elements", ("clist", [ELEM] * n))
+        c.use = {S + f"Image.{fn}": S + f"Image.{fn}#pure", S + "Image._add_count_to_name": S + "Image._add_count_to_name#pure"}
+        c.raises("CouldNotDetermineName")
+        names = [f"elements[{i}].{attr}" for i in range(n)]
+        if n > 1:
+            c.ensures(f"distinct({', '.join(names)})", "sibling-names-are-pairwise-different")
+        c.ensures("result is elements", "same-list-same-order")
+        # the first element that asks for a name keeps it unchanged
+        cand = f"uf_str('{'export_name' if fn == 'make_export_name' else 'safe_name'}', elements[0].name" + \
+               (", elements[0].type_id != 1)" if fn == "make_export_name" else ")")
+        c.ensures(f"{names[0]} == {cand}", "first-claimant-keeps-the-plain-name")
+    return _u
+
+
+for _n in (1, 2, 3, 4):
+    _mk_unique("make_export_names_routine", "_export_name", "make_export_name", _n)
+    _mk_unique("make_safe_names_routine", "_safe_name", "make_safe_name", _n)
+
+
+# ================================================================================================== pairing (C05)
+# combine_stereo_routine on a directory of n mono samples whose export names are pairwise different safe components
+# (what make_export_names_routine leaves behind).  `combine_stereo` is replaced by an abstract constructor that records
+# WHICH two samples were merged in WHICH order (ghost fields `left` / `right`).
+SAMPLE = ("obj", "smpl_extract.generalized.sample:Sample", {"name": "str", "_export_name": "str", "uid": "int", "left_uid": "int", "right_uid": "int"})
+PAIR_L = "[\\\\s\\\\S]*[\\\\s\\\\-]L"       # ... a blank or hyphen, then the final letter
+
+
+@contract("smpl_extract.generalized.sample:combine_stereo#abstract", abstract=True, assumed=True,
+          note="combine_stereo(left, right, new_name): a new two-stream sample whose stream 0 is left's and stream 1 is right's, "
+               "exported under new_name (its body copies dataclass fields: not modelled; the stereo WAV encoding of such a sample is C04/C12)")
+def _cs(c):
+    c.param("left", SAMPLE)
+    c.param("right", SAMPLE)
+    c.param("new_name", "str")
+    c.returns(("obj", "smpl_extract.generalized.sample:Sample",
+               {"name": "str", "_export_name": "str", "uid": "int", "left_uid": "int", "right_uid": "int"}))
+    c.ensures("result._export_name == new_name and result.left_uid == left.uid and result.right_uid == right.uid and result.uid == -1")
+    c.modifies()
+
+
+@contract("re:stereo_filename.match#abstract", abstract=True, assumed=True,
+          note="_STEREO_FILENAME.match on a name WITHOUT trailing blank: succeeds exactly on names ending in a blank or hyphen followed by L or R; "
+               "the groups then decompose the name: name = g1 ++ g2 ++ g3, g2 a non-empty run of blanks / hyphens, g3 the final letter. "
+               "Justified against the LIVE pattern by lemma:stereo_filename_decomposition (same file)")
+def _sm(c):
+    c.param("name", "str")
+    c.returns(("opt", ("match", 3)))
+    c.requires("not in_re(name, '[\\s\\S]*\\s')", "name-has-no-trailing-blank")
+    c.ensures("present(result) == in_re(name, '[\\s\\S]*[\\s\\-][LR]')")
+    c.ensures("implies(present(result), name == opt_val(result).group(1) + opt_val(result).group(2) + opt_val(result).group(3) "
+              "and (opt_val(result).group(3) == 'L' or opt_val(result).group(3) == 'R') "
+              "and in_re(opt_val(result).group(2), '[\\s\\-]+') and in_re(opt_val(result).group(1), '[^\\n]*'))")
+    c.modifies()
+
+
+@contract("lemma:stereo_filename_decomposition", props=["C05"], lemma_module="smpl_extract.structural", lemma_deps=[],
+          lemma_src="def decompose(s):\n    m = Image._STEREO_FILENAME.match(s)\n    if m:\n        return (m.group(1), m.group(2), m.group(3))\n    return None\n",
+          regex_decomposition=True)
+def _sfd(c):
+    # what the abstract match contract above assumes, proved of the live compiled pattern for every name without newline / trailing blank
+    c.param("s", "str")
+    c.requires("in_re(s, '[^\\n]*') and not in_re(s, '[\\s\\S]*\\s')")
+    c.returns(("opt", ("tuple", ["str", "str", "str"])))
+    c.ensures("present(result) == in_re(s, '[\\s\\S]*[\\s\\-][LR]')", "matches-exactly-the-names-ending-in-blank-or-hyphen-then-L-or-R")
+    c.ensures("implies(present(result), s == opt_val(result)[0] + opt_val(result)[1] + opt_val(result)[2])", "groups-decompose-the-name")
+    c.ensures("implies(present(result), (opt_val(result)[2] == 'L' or opt_val(result)[2] == 'R') and in_re(opt_val(result)[1], '[\\s\\-]+'))",
+              "separator-and-side")
+
+
+def _mk_pairing(n):
+    @contract(S + f"Image.combine_stereo_routine[n={n}]", source_key=S + "Image.combine_stereo_routine", props=["C05"],
+              proof_only=True)
+    def _p(c):
+        c.self_obj(("self", "smpl_extract.structural:Image", {}))
+        c.param("samples", ("clist", [SAMPLE] * n))
+        c.abstract_calls = {"combine_stereo": "smpl_extract.generalized.sample:combine_stereo#abstract",
+                            "self._STEREO_FILENAME.match": "re:stereo_filename.match#abstract"}
+        c.use = {S + "Image._add_count_to_name": S + "Image._add_count_to_name#pure"}
+        for i in range(n):
+            c.requires(f"in_re(samples[{i}]._export_name, '[{W}]{SAFE_BODY}') and not in_re(samples[{i}]._export_name, '.* ') "
+                       f"and samples[{i}].uid == {i} and samples[{i}].left_uid == -1 and samples[{i}].right_uid == -1", f"sample-{i}-has-a-safe-export-name")
+        if n > 1:
+            c.requires("distinct(" + ", ".join(f"samples[{i}]._export_name" for i in range(n)) + ")", "export-names-differ")
+        # partner relation written from the statement: the names differ only in a final L / R preceded by a blank or a hyphen
+        c.define("is_left_of", ["a", "b"],
+                 f"in_re(a._export_name, '{PAIR_L}') and b._export_name == substr(a._export_name, 0, strlen(a._export_name) - 1) + 'R' "
+                 "and substr(a.name, 0, strlen(a.name) - 1) == substr(b.name, 0, strlen(b.name) - 1)")
+        if n == 2:
+            c.ensures("implies(is_left_of(samples[0], samples[1]), len(result) == 1 and result[0].left_uid == 0 and result[0].right_uid == 1)",
+                      "pair-in-directory-order-L-R-is-merged-left-first")
+            c.ensures("implies(is_left_of(samples[1], samples[0]), len(result) == 1 and result[0].left_uid == 1 and result[0].right_uid == 0)",
+                      "pair-in-directory-order-R-L-is-merged-left-first")
+            c.ensures("implies(is_left_of(samples[0], samples[1]) or is_left_of(samples[1], samples[0]), "
+                      "in_re(substr(samples[0]._export_name, strlen(result[0]._export_name), strlen(samples[0]._export_name)), '[\\\\s\\\\-]+[LR]') "
+                      "and result[0]._export_name == substr(samples[0]._export_name, 0, strlen(result[0]._export_name)))",
+                      "merged-file-is-named-after-the-common-stem")
+            c.ensures("implies(not is_left_of(samples[0], samples[1]) and not is_left_of(samples[1], samples[0]), len(result) == 2)",
+                      "every-other-sample-stays-its-own-mono-sample")
+            c.ensures("implies(len(result) == 2, result[0] is samples[0] and result[1] is samples[1])", "unmerged-samples-are-passed-on-in-order")
+        if n == 1:
+            c.ensures("len(result) == 1 and result[0] is samples[0]", "a-single-sample-stays-mono")
+        # for every n: nothing is lost or duplicated, every L/R pair is merged left-first, everything else stays as it is,
+        # and the names handed on are still pairwise different
+        for i in range(n):
+            c.ensures(f"sum([ite(r.uid == {i} or r.left_uid == {i} or r.right_uid == {i}, 1, 0) for r in result]) == 1",
+                      f"sample-{i}-is-handed-on-exactly-once")
+            others = [j for j in range(n) if j != i]
+            for j in others:
+                c.ensures(f"implies(is_left_of(samples[{i}], samples[{j}]), sum([ite(r.left_uid == {i} and r.right_uid == {j}, 1, 0) for r in result]) == 1)",
+                          f"pair-L{i}-R{j}-is-merged-left-first")
+            lone = " and ".join([f"not is_left_of(samples[{i}], samples[{j}]) and not is_left_of(samples[{j}], samples[{i}])" for j in others]) or "True"
+            c.ensures(f"implies({lone}, sum([ite(r is samples[{i}], 1, 0) for r in result]) == 1)", f"unpaired-sample-{i}-stays-its-own-mono-sample")
+        c.ensures("distinct([r._export_name for r in result])", "names-handed-on-are-pairwise-different")
+        c.ensures("sum([ite(r.uid == -1, 2, 1) for r in result]) == " + str(n), "channels-add-up-to-the-number-of-samples")
+    return _p
+
+
+for _n in (1, 2, 3):
+    _mk_pairing(_n)
